@@ -99,6 +99,19 @@ where
         }
     }
 
+    /// Read-only snapshot of both search trees: `(start tree, goal tree)`, each a list of
+    /// `(state, parent index)`.
+    #[cfg(feature = "verif")]
+    #[allow(clippy::type_complexity)]
+    pub fn verif_trees(&self) -> (Vec<(S, Option<usize>)>, Vec<(S, Option<usize>)>) {
+        let snap = |t: &Vec<Node<S>>| {
+            t.iter()
+                .map(|n| (n.state.clone(), n.parent_index))
+                .collect::<Vec<_>>()
+        };
+        (snap(&self.start_tree), snap(&self.goal_tree))
+    }
+
     fn reconstruct_path(&self, tree: &[Node<S>], last_node_idx: usize) -> Path<S> {
         let mut path_states = Vec::new();
         let mut current_index = Some(last_node_idx);
@@ -249,6 +262,10 @@ where
         loop {
             // 1. Check for timeout
             if start_time.elapsed() > timeout {
+                return Err(PlanningError::Timeout);
+            }
+            #[cfg(feature = "verif")]
+            if !crate::verif::take_tick() {
                 return Err(PlanningError::Timeout);
             }
 
